@@ -200,9 +200,12 @@ class ParserCorr(Corr):
         try:
             r = fns[case["parser"]](case["input"])
         except (ValueError, AssertionError, KeyError) as e:
-            return {"kind": "raises", "type": type(e).__name__, **extra}
+            out = {"kind": "raises", "type": type(e).__name__, **extra}
+            self._again(case, fns, E, out)
+            return out
         out = classify(E, r)
         out.update(extra)
+        self._again(case, fns, E, out)
         if case["parser"] == "Shape(shape_type)" and out["kind"] == "member":
             # the documented default: no footprint (oracle only; key not read by the model comparison)
             from perception_eval.common.shape import Shape
@@ -261,8 +264,55 @@ class ParserCorr(Corr):
                 same = same and len(td2) == 0
             except Exception:
                 same = False
+            # frames whose value is a prefix / substring of this one's or vice versa (cam_traffic_light / cam_traffic_light_near, cam_front /
+            # cam_front_left ...), in either position of the key, spelled by strings or members: never the same key, never the same entry
+            try:
+                me = E[out["key"]]
+                for P in [m for m in FrameID if m is not me and (m.value.lower() in me.value.lower() or me.value.lower() in m.value.lower())]:
+                    for pv in (P, P.value, P.value.upper()):
+                        a, b = TransformKey(case["input"], pv), TransformKey(pv, case["input"])
+                        c1, c2 = TransformKey(case["input"], "map"), TransformKey(pv, "map")
+                        d1, d2 = TransformKey("map", case["input"]), TransformKey(FrameID.MAP, pv)
+                        ident = TransformKey(case["input"], me)
+                        same = same and a == TransformKey(me, P) and b == TransformKey(P, me)
+                        same = same and not (a == b) and not (b == a) and not (a == ident) and not (ident == a) and not (b == ident)
+                        same = same and not (c1 == c2) and not (c2 == c1) and not (d1 == d2) and not (d2 == d1)
+                        same = same and a.src is me and a.dst is P and b.src is P and b.dst is me
+                        m1 = HomogeneousMatrix((1.0, 2.0, 3.0), (1.0, 0.0, 0.0, 0.0), src=me, dst=P)
+                        m2 = HomogeneousMatrix((4.0, 5.0, 6.0), (1.0, 0.0, 0.0, 0.0), src=P, dst=me)
+                        td = TransformDict([m1, m2])
+                        same = same and td.get((case["input"], pv)) is m1 and td[(pv, case["input"])] is m2 and len(td) == 2
+                        same = same and [float(v) for v in td.transform((case["input"], pv), (0.0, 0.0, 0.0))] == [1.0, 2.0, 3.0]
+                        same = same and [float(v) for v in td.transform((pv, case["input"]), (0.0, 0.0, 0.0))] == [4.0, 5.0, 6.0]
+                        probe = (7.0, 8.0, 9.0)
+                        same = same and td.transform((case["input"], me), probe) is probe
+                        td3 = TransformDict([HomogeneousMatrix((1.0, 2.0, 3.0), (1.0, 0.0, 0.0, 0.0), src=me, dst=FrameID.MAP)])
+                        same = same and td3.get((pv, "map")) is None and td3.get(("map", pv)) is None
+                        out["prefix_partners"] = out.get("prefix_partners", 0) + 1
+            except Exception:
+                same = False
             out["same_as_enum_spelling"] = same
         return out
+
+    @staticmethod
+    def _again(case, fns, E, out):
+        """the same string parsed a SECOND time after every documented spelling of the enum (and the other letter cases of the string itself)
+        went through the same parser: the answer is a function of the string, not of what was parsed before (oracle only)"""
+        f = fns[case["parser"]]
+        s = case["input"]
+        ename = PARSERS[case["parser"]][0]
+        for w in list(DOC_TABLES[ename].values()) + list(DOC_TABLES[ename]) + [s.lower(), s.upper(), s.swapcase(), s.strip()]:
+            try:
+                f(w)
+            except (ValueError, AssertionError, KeyError):
+                pass
+        try:
+            r2 = classify(E, f(s))
+        except (ValueError, AssertionError, KeyError) as e:
+            r2 = {"kind": "raises", "type": type(e).__name__}
+        first = {k: out.get(k) for k in ("kind", "key", "value", "type") if k in out}
+        if r2 != first:
+            out["second_call"] = r2
 
     def _model_result(self, obs):
         k = obs["kind"]
@@ -365,6 +415,10 @@ class ParserCorr(Corr):
             return f"{case['parser']}: the documented member {case['printed']} does not exist"
         exp = self.expected(case)
         shown = obs.get("printed") if "printed" in case else case["input"]
+        if "second_call" in obs:
+            first = {k: obs.get(k) for k in ("kind", "key", "value", "type") if k in obs}
+            return (f"{case['parser']}({shown!r}) gives {first} on the first call and {obs['second_call']} after the documented spellings and the "
+                    f"other letter cases of the string were parsed: the answer depends on earlier calls")
         case = dict(case, input=shown)
         df = obs.get("default_footprint")
         if df is not None and exp["kind"] == "member":
@@ -402,6 +456,10 @@ class ParserCorr(Corr):
         extra = {"printed_form_cases": sum(1 for c in cases if "printed" in c), "non_ascii_inputs": sum(1 for c in cases if not c.get("input", "").isascii()),
                  "default_footprint_checks": sum(1 for o in obs if isinstance(o, dict) and "default_footprint" in o),
                  "oracle_only_site_cases": sum(1 for c in cases if c["parser"] in ORACLE_ONLY),
+                 "strings_parsed_a_second_time_after_the_documented_spellings": sum(1 for c in cases if c["parser"] in PARSERS),
+                 "of_them_answered_differently": sum(1 for o in obs if isinstance(o, dict) and "second_call" in o),
+                 "TransformKey_checks_against_frames_whose_value_contains_or_is_contained_in_the_key_frame": sum(
+                     o.get("prefix_partners", 0) for o in obs if isinstance(o, dict)),
                  "observation_members_whose_printed_form_does_not_parse_back": {
                      c["enum"]: sorted(k for k, ok in o["printed_parses_back"].items() if not ok)
                      for c, o in zip(cases, obs) if c["parser"] == MEMBERS and isinstance(o, dict) and "printed_parses_back" in o},
@@ -430,6 +488,11 @@ class C20(Prop):
             "size) without a footprint against the enum spelling (rectangle for bounding_box, rejection for polygon); oracle-only call sites "
             "set_task_lists / set_task_dict (documented values give the member, also repeated) and FrameID.from_task (string = enum spelling, "
             "documented mapping, 2D tasks and non-members rejected); "
+            "every string is parsed a SECOND time after all documented spellings of the enum and the other letter cases of the string went "
+            "through the same parser (oracle: same answer -- the result is a function of the string, not of earlier calls); TransformKey: for "
+            "every frame whose value contains or is contained in the key frame's value (cam_traffic_light / cam_traffic_light_near ...) the keys "
+            "(X, P), (P, X), (X, X), (X, map), (P, map), (map, X), (map, P) in string / member spelling are pairwise different and a registry holding "
+            "X->P and P->X answers each through get / [] / transform with its own entry; "
             "non-trivial = input is a documented member spelling or contains upper-case letters")
     assumptions = [
         "Python str.lower()/upper() modelled on ASCII only (non-ASCII case folding outside the model)",
